@@ -182,3 +182,23 @@ Proof.
   destruct (quiescent_loop _ HI Hq _ _ Hn Hl) as [_ [(E1 & E2 & E3)|Hh]]; auto.
   rewrite (ki_unreg_closed _ K Hreg) in E3; auto; discriminate.
 Qed.
+
+(* when is an injected read failure NOT yet recorded in a quiescent state? Only when the read loop cannot get to its
+   next Read: it is holding an envelope for a registered call whose one-slot queue is full (a stream whose caller is
+   not reading): head-of-line blocking. The transport's Read has then not been called again, so the failure has not
+   been observed by anybody. *)
+Lemma C09_unrecorded_l ls s : lrun init ls = Some s -> quiescent s = true -> inbox_failed s = true -> rerr s = false ->
+  exists c e k, rl s = RLHold c e /\ nth_error (calls s) c = Some k /\ k_reg k = true /\ is_some (cbuf (k_chan k)) = true.
+Proof.
+  intros H Hq Hf Hr. apply inv_reach in H. destruct H as [HI HS].
+  destruct (rl s) eqn:Erl.
+  - exfalso. pose proof (quiescent_none s r_rl_read Hq ltac:(unfold rules; simpl; auto)) as Hn.
+    unfold r_rl_read in Hn. rewrite Erl in Hn. destruct (inbox s) eqn:Ei.
+    + rewrite Hf in Hn. discriminate.
+    + destruct (find_reg (eid e) (calls s) 0) eqn:Efr; try discriminate.
+      destruct (nth_error (calls s) n) eqn:En.
+      * destruct (cbuf (k_chan c)); discriminate.
+      * apply find_reg0_some in Efr. destruct Efr as (k & Hk & _). congruence.
+  - destruct (quiescent_hold _ HI HS Hq _ _ Erl) as (k & Hk & Hreg & Hb). exists c, e, k. auto.
+  - exfalso. apply (si_rerr_dead _ HS) in Erl. congruence.
+Qed.
